@@ -218,7 +218,7 @@ def main():
 
 HOOK_COMMITS = ["44d0fad"]
 # a thorough tier is registered only once it has been run to completion, quiet, on the unchanged tree
-THOROUGH_VALIDATED = {"C01", "C02", "C03", "C04", "C05", "C06", "C07", "C08", "C09", "C10", "C11", "C12", "C14", "C15", "C16", "C17", "C18"}
+THOROUGH_VALIDATED = {"C01", "C02", "C03", "C04", "C05", "C06", "C07", "C08", "C09", "C10", "C11", "C12", "C13", "C14", "C15", "C16", "C17", "C18"}
 NOT_APPLICABLE = {}
 
 if __name__ == "__main__":
